@@ -52,7 +52,7 @@ def rot_case(draw, ndim=(2, 4)):
     subs = [] if ref == "far" else draw(gen.index_boxes(g["n"], 2))
     return {"g": g, "subs": subs, "k": k, "vdims": vd, "kind": kind,
             "perm": list(draw(st.permutations(range(nd)))), "drop": draw(st.integers(0, 3)),
-            "dtype": draw(st.sampled_from(["float", "float", "int"])), "seed": draw(st.integers(0, 2**31)),
+            "dtype": draw(st.sampled_from(["float", "float", "int", "complex"])), "seed": draw(st.integers(0, 2**31)),
             "huge_int": draw(st.booleans()), "foreign_axis": draw(st.booleans()),
             "mask": draw(gen.mask_spec(nd)), "ref": refv, "ref_type": draw(st.sampled_from(["tuple", "list", "array"])),
             "inplace_picks": [draw(st.integers(0, 10**6)) for _ in range(4)], "unit": draw(st.sampled_from(gen.FIELD_UNITS))}
@@ -102,6 +102,9 @@ def build(case, with_mapping=True):
         if case.get("huge_int"):
             # components beyond 2**53: exact in int64, not in float64
             arr = arr * (2**57 + 12345) + np.arange(arr.size, dtype=np.int64).reshape(arr.shape) * 7 + 1
+    elif case["dtype"] == "complex":
+        # independent imaginary parts: a rotation acts on real and imaginary parts alike
+        arr = arr + 1j * gen.make_array(case["seed"] + 17, (*n, k), "int", "float")
     kw = {}
     if case["vdims"]:
         kw["vdims"] = list(case["vdims"])
@@ -110,7 +113,7 @@ def build(case, with_mapping=True):
         # the dict may list the labels in any order (not necessarily the order of vdims)
         np.random.default_rng(case["seed"] + case["drop"]).shuffle(items)
         kw["vdim_mapping"] = dict(items) if with_mapping else {}
-    f = df.Field(mesh, nvdim=k, value=arr, dtype=np.int64 if case["dtype"] == "int" else None,
+    f = df.Field(mesh, nvdim=k, value=arr, dtype={"int": np.int64, "complex": np.complex128}.get(case["dtype"]),
                  valid=gen.make_mask(case["mask"], n), unit=case["unit"], **kw)
     return mesh, f, arr, coa
 
@@ -309,7 +312,8 @@ def check_rotations(case):
                 idx = tuple(int(rng.integers(0, m)) for m in lat.n)
                 p = lat.centre(idx)
                 q = [float(x) for x in rot_pt(p, R, a, b, k)]
-                want = rotate_components(arr[idx][np.newaxis, :].astype(float), coa, a, b, k, False)[0]
+                want = rotate_components(arr[idx][np.newaxis, :].astype(complex if case["dtype"] == "complex" else float),
+                                         coa, a, b, k, False)[0]
                 got = gf(tuple(q))
                 if not np.allclose(got, want, rtol=1e-12, atol=1e-12):
                     raise Violation("pointwise", f"axes ({a},{b}) k={k}: f{idx}={arr[idx]} but g({q})={got}, expected {want}")
@@ -369,9 +373,22 @@ def check_refuse_inplace(case):
     if case["k"] == 1:
         raise Reject()
     dims = gen.dims_of(g)
-    how = case["inplace_picks"][0] % 3
+    how = case["inplace_picks"][0] % 4
+    dims_ = gen.dims_of(g)
     if how == 0:
         _, f, arr, _ = build(case, with_mapping=False)
+    elif how == 3:
+        # exactly ONE axis of the rotation plane has no component (the other one and all remaining axes may)
+        _, f, arr, _ = build(case, with_mapping=True)
+        a_, b_ = case["perm"][0], case["perm"][1]
+        gone = dims_[b_] if case["inplace_picks"][1] % 2 else dims_[a_]
+        m = {lab: (None if ax == gone else ax) for lab, ax in dict(f.vdim_mapping).items()}
+        if gone not in dict(f.vdim_mapping).values():
+            raise Reject()
+        other = dims_[a_] if gone == dims_[b_] else dims_[b_]
+        if other not in m.values():
+            raise Reject()  # both unmapped: that is how == 0
+        f.vdim_mapping = m
     else:
         # a mapped field that loses its labels (and with them the mapping); how == 2: new labels afterwards
         _, f, arr, _ = build(case, with_mapping=True)
